@@ -74,6 +74,8 @@ def inplace_edit(rng, b, spec):
         choices.append("frequency")
     if kind in ("data3D", "emg", "force3D", "events", "optical"):
         choices.append("append-item")
+    if its and kind in ("data3D", "emg", "force3D", "platCal", "events", "optical"):
+        choices.append("remove-item")
     if kind == "data2D" and spec["nCams"] and spec["nFrames"]:
         choices += ["cell-set", "cell-clear"]
     if kind == "events" and its:
@@ -128,6 +130,24 @@ def inplace_edit(rng, b, spec):
             its[i].Y = arr[:, 1]
             its[i].Z = arr[:, 2]
             s2[key][i]["frames"] = newf
+        return ch, s2
+    if ch == "remove-item":
+        i = rng.randrange(len(its))
+        if kind == "emg":
+            lab = its[i].label
+            i = [t.label for t in its].index(lab)      # removeSignal drops the *first* signal carrying the label
+            b.removeSignal(lab)
+            s2["map"].pop(i)
+        elif kind == "platCal":
+            b.remove_platform(i if rng.random() < 0.5 else i - len(its))
+            s2["map"].pop(i)
+        elif kind in ("data3D", "force3D"):
+            b.tracks = [t for k_, t in enumerate(its) if k_ != i]
+        elif kind == "events":
+            b.events.pop(i)
+        else:
+            b.channels.pop(i)
+        s2[key].pop(i)
         return ch, s2
     if ch == "label":
         i = rng.randrange(len(its))
